@@ -7,7 +7,7 @@
 From Coq Require Import List Bool Arith.
 From Morlock.Model Require Import Driver.
 From Morlock.Lemmas Require Import DriverLemmas1 DriverLemmas2 DriverLemmas3 DriverLemmas4 DriverLemmas5
-  DriverLemmas6 DriverLemmas7 DriverLemmas8 DriverLemmas.
+  DriverLemmas6 DriverLemmas7 DriverLemmas8 DriverLemmas DriverTrace1 DriverTrace2 DriverTrace3 DriverTrace.
 Import ListNotations.
 
 (** no crash: nothing is ever sent on the closed output channel (only the loop writes, and it closes
@@ -56,3 +56,19 @@ Check legacy_stale_timer.
 (** sanity: every state of two scripts under all interleavings (3289 / 7457 states) passes all checks *)
 Check explore_script1.
 Check explore_script2.
+
+(** the whole observable behaviour at once: every output trace the transition system can produce - any
+    script, any interleaving, up to the exit of the loop - is accepted by the trace acceptor [obs_ok], which
+    is the executable statement of C04/C16 on command/output traces (k-th readyok answers the k-th isready;
+    info/bestmove only while a go is pending; at most one bestmove per go, none after a superseding command;
+    a stop or a book go is answered before the next command is consumed; nothing after the loop exited).
+    The same acceptor is run on the traces recorded from the real driver on every check. *)
+Definition C16_obs_sound := @obs_sound.
+Check @obs_sound.
+Check @obs_counts_sound.
+Check @obs_prefix_extends.
+Check @obs_ok_iff.
+Check sound_nonvacuous.
+Check exit_hypothesis_needed.
+Print Assumptions obs_sound.
+Print Assumptions obs_counts_sound.
